@@ -3,11 +3,13 @@ C11 — adjacent string literals (6.4.5p5) and the text the tokenizer sees, abou
 tokenize.c / type.c on every check run (Gen/StrJoinGen.lean by tools/extract/strjoin.py: `StringKind`, `getStringKind`,
 `tokenize_string_literal`, `array_of`'s size, both passes of `join_adjacent_string_literals` on one run of adjacent string
 literals with `int` locals as `Int`, `calloc` / `memcpy` with bounds, and the tail of `read_file`).
-Property theorems only (helper lemmas: Lemmas/C11Join, Lemmas/C11ReadFile).  Hand-written and tied by the differential run
+Property theorems only (helper lemmas: Lemmas/C11Join, Lemmas/C11JoinTokens, Lemmas/C11Concat, Lemmas/C11ReadFile).  Hand-written and tied by the differential run
 only: the iteration of the two outer loops over the maximal runs (Model/StrJoin.lean `overRuns`, C shape pinned by the
 translator) and the libc stream calls of `read_file` before its tail.
 -/
 import ChibiVerif.Lemmas.C11Join
+import ChibiVerif.Lemmas.C11JoinTokens
+import ChibiVerif.Lemmas.C11Concat
 import ChibiVerif.Lemmas.C11ReadFile
 
 set_option linter.unusedSimpArgs false
@@ -148,6 +150,86 @@ theorem C11_prefix_kinds (rest : List Byte) (base : Ty) (n : Int) (s : List Byte
       [([], .ok (kindToGen (kindOf .none))), ([117, 56], .ok (kindToGen (kindOf .u8))), ([117], .ok (kindToGen (kindOf .u))),
        ([76], .ok (kindToGen (kindOf .L))), ([85], .ok (kindToGen (kindOf .U)))] := by
   simp [stringPrefixes, ChibiVerif.Gen.StrJoin.getStringKind, byteAt, kindToGen, kindOf]
+
+-- ------------------------------------------------------------------ 6.4.5p5-6 as a whole: from the spellings to the bytes of the array
+
+/-- **C11 (adjacent string literals, from spelling to bytes).**  Take any sequence of at least two string literals, each given by its
+    encoding prefix and its body — source characters (any code point up to U+10FFFF other than NUL, new-line, `"` and `\`, written in
+    UTF-8) and escape sequences (`SrcItem`, as in `C11_strings`).
+    * The prefix bytes, reader and element type `tokenize()` uses for each prefix are those of the translated dispatch table
+      (first conjunct), and the token it makes of `prefix " body "`, whatever follows, is `pieceTok` (second conjunct; by `C11_strings`).
+    * If the prefixes are compatible (6.4.5p5: `joinPrefix` = `P`) and the escape sequences of the unprefixed pieces of a wide sequence
+      read back in their literal (`ItemsOK []`: they are read a second time, by the wide reader, from the token text), then
+      `join_adjacent_string_literals` AS TRANSLATED (first pass, second pass) returns one token whose element size is that of `P`, whose
+      `array_len` is the number of code units + 1, and whose `str` holds exactly: for every piece in order, for every body item in
+      order, the code units of that item AT THE PREFIX `P` — and then one zero unit.
+    * Those code units are the C11 ones (last conjunct): a source character gives `encodeChar P` (UTF-8 bytes / UTF-16 units / the code
+      point; Spec, RFC 3629 / 2781), an escape sequence its value modulo 2^(8 × element size). -/
+theorem C11_concat_spec :
+    stringPrefixes = [StrPrefix.none, .u8, .u, .L, .U].map (fun p => ((prefixBytes p).map BitVec.toNat, readerOf p, tyOf p)) ∧
+    (∀ (p : StrPrefix) (its : List SrcItem) (post : List Byte), ItemsOK post its →
+      readString (readerOf p) (tyOf p) (prefixBytes p ++ 34#8 :: (renderItems its ++ 34#8 :: post)) (prefixBytes p).length =
+        .ok (pieceTok p its)) ∧
+    (∀ (pc1 pc2 : StrPrefix × List SrcItem) (pcs : List (StrPrefix × List SrcItem)) (P : StrPrefix),
+      joinPrefix ((pc1 :: pc2 :: pcs).map (·.1)) = some P →
+      (∀ pc ∈ pc1 :: pc2 :: pcs, pc.1 = .none → 1 < P.elemSize → ItemsOK [] pc.2) →
+      ∃ r, joinRun (toTok (pieceTok pc1.1 pc1.2)) ((pc2 :: pcs).map (fun pc => toTok (pieceTok pc.1 pc.2))) = .ok r ∧
+        r.base.size = P.elemSize ∧
+        r.str = ((pc1 :: pc2 :: pcs).flatMap (fun pc => pc.2.flatMap (itemUnits (readerOf P)))).flatMap (unitBytes P.elemSize) ++
+          List.replicate P.elemSize 0#8 ∧
+        r.arrayLen = ((((pc1 :: pc2 :: pcs).flatMap (fun pc => pc.2.flatMap (itemUnits (readerOf P)))).length : Nat) : Int) + 1) ∧
+    (∀ P : StrPrefix,
+      (∀ c : BitVec 32, CharOK c → itemUnits (readerOf P) (.char c) = ChibiVerif.Spec.Literals.encodeChar P c.toNat) ∧
+      (∀ (body : List Byte) (v : BitVec 32), itemUnits (readerOf P) (.esc body v) = [v.toNat % 2 ^ (8 * P.elemSize)])) :=
+  ⟨by decide, ChibiVerif.Lemmas.Concat.piece_read, ChibiVerif.Lemmas.Concat.concat_spec, ChibiVerif.Lemmas.Concat.item_spec⟩
+
+/-- non-vacuity: `"a\n" L"€"` (an unprefixed piece with an escape, then a wide one): prefix `L`, the escape reads back, and the array is
+    `a \n € \0` in 32-bit units -/
+example : joinPrefix (([(.none, [.char 0x61#32, .esc [0x6E#8] 10#32]), (.L, [.char 0x20AC#32])] : List (StrPrefix × List SrcItem)).map (·.1)) = some .L ∧
+    ItemsOK [] [.char 0x61#32, .esc [0x6E#8] 10#32] ∧
+    (joinRun (toTok (pieceTok .none [.char 0x61#32, .esc [0x6E#8] 10#32])) [toTok (pieceTok .L [.char 0x20AC#32])]).map
+        (fun r => (r.base, r.arrayLen, r.str)) =
+      .ok (.ty_int, 4, [0x61#8, 0#8, 0#8, 0#8, 10#8, 0#8, 0#8, 0#8, 0xAC#8, 0x20#8, 0#8, 0#8, 0#8, 0#8, 0#8, 0#8]) := by
+  refine ⟨by decide, ⟨by unfold CharOK; decide, ⟨0x6E#8, [], rfl, by decide, by decide, by simp⟩, by decide, trivial⟩, by decide⟩
+
+-- ------------------------------------------------------------------ whole token lists
+
+/-- **C11 (every run of a token list is joined as one run is).**  `join_adjacent_string_literals` on a whole token list has the
+    structure of the C function — the translated first pass over every maximal run of at least two adjacent string literals, and only
+    then the translated second pass over every run (`joinTokens`; the iteration `overRuns` is hand-written after the shape of the two
+    outer loops and run against the real code on whole token lists).  Whenever it returns it returns what the run-by-run composition
+    returns and vice versa (the first pass keeps the number of tokens of a run and keeps them string literals, so the second outer loop
+    finds the same runs); and run by run means: a token that does not begin a run of two string literals is kept, and a maximal run
+    `a :: b :: r` (followed by the end or a token that is not a string literal) is replaced by the one token `joinRun` makes of it —
+    the token `C11_translated_join`, `C11_strings_join_translated` and `C11_join_bytes` are about. -/
+theorem C11_join_tokens :
+    (∀ toks out : List Tok, joinTokens toks = .ok out ↔ joinTokensPerRun toks = .ok out) ∧
+    joinTokensPerRun [] = .ok [] ∧
+    (∀ (t : Tok) (ts : List Tok), ¬ (t.isStr = true ∧ (ts.head?.map (·.isStr)) = some true) →
+      joinTokensPerRun (t :: ts) = match joinTokensPerRun ts with
+        | .error e => .error e
+        | .ok r' => .ok (t :: r')) ∧
+    (∀ (a b : Tok) (r rest : List Tok), a.isStr = true → b.isStr = true → (∀ x ∈ r, x.isStr = true) → NoStrHead rest →
+      joinTokensPerRun (a :: b :: r ++ rest) = match joinRun a (b :: r) with
+        | .error e => .error e
+        | .ok x => match joinTokensPerRun rest with
+          | .error e => .error e
+          | .ok y => .ok (x :: y)) :=
+  ⟨ChibiVerif.Lemmas.JoinTokens.join_tokens_iff, rfl, ChibiVerif.Lemmas.JoinTokens.perRun_keep, ChibiVerif.Lemmas.JoinTokens.perRun_run⟩
+
+/-- non-vacuity: `x "a" u"b" , "c"` — the run becomes one `char16_t` array, the single literal and the other tokens are kept -/
+example :
+    (joinTokens [⟨false, [0x78#8], .ty_char, 0, []⟩, readerTok [0x22#8, 0x61#8, 0x22#8] .ty_char [97],
+        readerTok [0x75#8, 0x22#8, 0x62#8, 0x22#8] .ty_ushort [98], ⟨false, [0x2C#8], .ty_char, 0, []⟩,
+        readerTok [0x22#8, 0x63#8, 0x22#8] .ty_char [99]]).map (fun l => l.map (fun t => (t.isStr, t.base, t.arrayLen, t.str))) =
+      .ok [(false, .ty_char, 0, []), (true, .ty_ushort, 3, [97#8, 0#8, 98#8, 0#8, 0#8, 0#8]), (false, .ty_char, 0, []),
+           (true, .ty_char, 2, [99#8, 0#8])] ∧
+    NoStrHead [(⟨false, [0x2C#8], .ty_char, 0, []⟩ : Tok)] := by
+  refine ⟨by decide, ?_⟩
+  intro t ht
+  simp at ht
+  subst ht
+  rfl
 
 -- ------------------------------------------------------------------ read_file, and file bytes ↦ tokenizer text
 
